@@ -345,7 +345,8 @@ func writeSavedQueries(myid int64) error {
 		return err
 	}
 
-	err = os.WriteFile(usqFilename, jdata, 0644)
+	// written via a temporary file and rename: a crash in between must not leave a truncated file
+	err = utils.AtomicWriteFile(usqFilename, jdata, utils.Truncate)
 	if err != nil {
 		log.Errorf("writeSavedQueries: Failed to writefile filename=%v, err=%v", usqFilename, err)
 		return err
